@@ -1,5 +1,5 @@
 // Concurrent scenario runner for eventpp::CallbackList / EventDispatcher listener management under the controlled scheduler (C03).
-// Scenario: "<k>:<prog>|<prog>|..."  k = number of initial callbacks (handles 1..k); ops per thread, comma separated:
+// Scenario: "<k>[w<d>]:<prog>|<prog>|..."  k = number of initial callbacks (handles 1..k), w<d> = generation counter placed d additions before its wrap; ops per thread, comma separated:
 //   a append | p prepend | i<h> insert before handle h | r<h> remove handle h | o<h> ownsHandle(h) | e empty/hasAnyListener | v invoke/dispatch | f forEach
 // A callback added by thread t as its idx-th operation gets the id (t+1)*10+idx; its handle is usable by the same thread later (i/r/o with that id).
 // Records begin/end of every call, every visit of a traversal and the final order (after join) as NDJSON for spec/TraceCC.tla.
@@ -49,6 +49,7 @@ typedef Obj::Handle Handle;
 static Obj * obj;
 static int g_liveWorkers = 0;
 static int g_init = 0;
+static long g_wrapDist = -1;      // "<k>w<d>:" = after the initial callbacks the generation counter is placed d additions before its wrap-around (CallbackList only)
 static std::vector<std::vector<std::string> > g_prog;
 static std::map<int, Handle> * g_handles;     // id -> handle; written by the owning thread only while it holds the baton
 
@@ -162,6 +163,8 @@ static bool parseScenario(const std::string & s)
 	size_t c = s.find(':');
 	if(c == std::string::npos) return false;
 	g_init = std::atoi(s.substr(0, c).c_str());
+	size_t w = s.substr(0, c).find('w');
+	g_wrapDist = w == std::string::npos ? -1 : std::atol(s.substr(w + 1, c - w - 1).c_str());
 	std::stringstream ss(s.substr(c + 1)); std::string th;
 	while(std::getline(ss, th, '|')) {
 		std::vector<std::string> ops; std::stringstream st(th); std::string op;
@@ -184,6 +187,11 @@ static bool execute(vs::Strategy * strategy, long execNo)
 	obj = new Obj();
 	g_handles = new std::map<int, Handle>();
 	for(int i = 1; i <= g_init; ++i) { (*g_handles)[i] = doAppend(i); std::fprintf(g_out, "{\"e\":\"in\",\"a\":%d}\n", i); }
+#if W_OBJ == 0
+	if(g_wrapDist >= 0) obj->verifSetCurrentCounter(0xffffffffu - (unsigned)g_wrapDist);
+#else
+	if(g_wrapDist >= 0) { std::fprintf(stderr, "counter placement needs the plain CallbackList\n"); std::exit(2); }
+#endif
 	std::fprintf(g_out, "{\"e\":\"go\"}\n");
 	g_liveWorkers = n;
 	std::vector<std::thread> threads;
